@@ -129,6 +129,92 @@ extern bool real_OK(const ITV_T *) __asm__(VSTR(FN_OK));
   POST(enclosure, !(GHOST_OK && mem(X, GA) && mem(Y, GB) && ns_sgn(GB) != 0) || mem_quot(TO, GA, GB)) \
   POST(emptiness, !(is_empty_set(X) || is_empty_set(Y)) || is_empty_set(TO))
 
+/* ---- bounds as ordered keys: a lower bound admits everything >= (v, o) lexicographically (o = 1: open) ---- */
+SPEC int lower_le(const ITV_T *x, const ITV_T *y) {      /* lower(x) <= lower(y): x admits (downwards) everything y does */
+  if (lo_inf(x)) return 1;
+  if (lo_inf(y)) return 0;
+  return lo(x) < lo(y) || (lo(x) == lo(y) && lo_open(x) <= lo_open(y));
+}
+SPEC int upper_ge(const ITV_T *x, const ITV_T *y) {
+  if (hi_inf(x)) return 1;
+  if (hi_inf(y)) return 0;
+  return hi(x) > hi(y) || (hi(x) == hi(y) && hi_open(x) <= hi_open(y));
+}
+SPEC int lower_eq(const ITV_T *x, const ITV_T *y) { return lo_inf(x) ? lo_inf(y) : (!lo_inf(y) && lo(x) == lo(y) && lo_open(x) == lo_open(y)); }
+SPEC int upper_eq(const ITV_T *x, const ITV_T *y) { return hi_inf(x) ? hi_inf(y) : (!hi_inf(y) && hi(x) == hi(y) && hi_open(x) == hi_open(y)); }
+SPEC int set_eq(const ITV_T *x, const ITV_T *y) { return is_empty_set(x) ? is_empty_set(y) : (!is_empty_set(y) && lower_eq(x, y) && upper_eq(x, y)); }
+SPEC int set_contains(const ITV_T *x, const ITV_T *y) { return is_empty_set(y) || (!is_empty_set(x) && lower_le(x, y) && upper_ge(x, y)); }
+/* upper(x) lies strictly below lower(y): no common point */
+SPEC int below(const ITV_T *x, const ITV_T *y) { return !hi_inf(x) && !lo_inf(y) && (hi(x) < lo(y) || (hi(x) == lo(y) && (hi_open(x) || lo_open(y)))); }
+SPEC int set_disjoint(const ITV_T *x, const ITV_T *y) { return is_empty_set(x) || is_empty_set(y) || below(x, y) || below(y, x); }
+
+/* Relation_Symbol (globals_defs.hh): EQUAL=1, LESS_THAN=2, LESS_OR_EQUAL=3, GREATER_THAN=4, GREATER_OR_EQUAL=5, NOT_EQUAL=6 */
+#define REL_EQ 1u
+#define REL_LT 2u
+#define REL_LE 3u
+#define REL_GT 4u
+#define REL_GE 5u
+#define REL_NE 6u
+SPEC int rel_valid(uint32_t rel) { return rel >= 1u && rel <= 6u; }
+SPEC int ns_rel(ns_t a, uint32_t rel, ns_t b) {
+  int c = ns_sgn(ns_add(a, ns_neg(b)));
+  return rel == REL_EQ ? c == 0 : rel == REL_LT ? c < 0 : rel == REL_LE ? c <= 0 : rel == REL_GT ? c > 0 : rel == REL_GE ? c >= 0 : c != 0;
+}
+/* for all b in x: a rel b  (x non-empty), decided on the bounds of x */
+SPEC int ns_below_lower(ns_t a, const ITV_T *x, int strict) {  /* a < (<=) every member of x */
+  int c; if (lo_inf(x)) return 0; c = ns_cmp_int(a, lo(x));
+  return strict ? (c < 0 || (c == 0 && lo_open(x))) : (c <= 0);
+}
+SPEC int ns_above_upper(ns_t a, const ITV_T *x, int strict) {
+  int c; if (hi_inf(x)) return 0; c = ns_cmp_int(a, hi(x));
+  return strict ? (c > 0 || (c == 0 && hi_open(x))) : (c >= 0);
+}
+SPEC int is_singleton_set(const ITV_T *x) { return !lo_inf(x) && !hi_inf(x) && lo(x) == hi(x) && !lo_open(x) && !hi_open(x); }
+SPEC int forall_rel(ns_t a, uint32_t rel, const ITV_T *x) {
+  if (is_empty_set(x)) return 1;
+  if (rel == REL_LT) return ns_below_lower(a, x, 1);
+  if (rel == REL_LE) return ns_below_lower(a, x, 0);
+  if (rel == REL_GT) return ns_above_upper(a, x, 1);
+  if (rel == REL_GE) return ns_above_upper(a, x, 0);
+  if (rel == REL_EQ) return is_singleton_set(x) && ns_cmp_int(a, lo(x)) == 0;
+  return !mem(x, a);
+}
+
+#define C_assign_POSTS(R, TO, X, Y) \
+  POST(wf, WF(TO)) \
+  POST(enclosure, !(GHOST_OK && mem(X, GA)) || mem(TO, GA)) \
+  POST(exact, set_eq(TO, X))
+/* TO0: entry value of the receiver */
+#define C_join_POSTS(R, TO, TO0, X) \
+  POST(wf, WF(TO)) \
+  POST(enclosure, !(GHOST_OK && (mem(TO0, GA) || mem(X, GA))) || mem(TO, GA)) \
+  POST(exact, is_empty_set(TO0) ? set_eq(TO, X) : is_empty_set(X) ? set_eq(TO, TO0) : \
+       ((lower_eq(TO, TO0) || lower_eq(TO, X)) && (upper_eq(TO, TO0) || upper_eq(TO, X))))
+#define C_join2_POSTS(R, TO, X, Y) C_join_POSTS(R, TO, X, Y)
+#define C_intersect_POSTS(R, TO, TO0, X) \
+  POST(wf, WF(TO)) \
+  POST(enclosure, !(GHOST_OK && mem(TO0, GA) && mem(X, GA)) || mem(TO, GA)) \
+  POST(exact, !(GHOST_OK && mem(TO, GA)) || (mem(TO0, GA) && mem(X, GA)))
+#define C_intersect2_POSTS(R, TO, X, Y) C_intersect_POSTS(R, TO, X, Y)
+#define C_difference_POSTS(R, TO, TO0, X) \
+  POST(wf, WF(TO)) \
+  POST(enclosure, !(GHOST_OK && mem(TO0, GA) && !mem(X, GA)) || mem(TO, GA)) \
+  POST(within, !(GHOST_OK && mem(TO, GA)) || mem(TO0, GA))
+#define C_difference2_POSTS(R, TO, X, Y) C_difference_POSTS(R, TO, X, Y)
+#define C_refine_existential_POSTS(R, TO, TO0, REL, X) \
+  POST(wf, WF(TO)) \
+  POST(enclosure, !(GHOST_OK && mem(TO0, GA) && mem(X, GB) && ns_rel(GA, REL, GB)) || mem(TO, GA)) \
+  POST(within, !(GHOST_OK && mem(TO, GA)) || mem(TO0, GA))
+#define C_refine_universal_POSTS(R, TO, TO0, REL, X) \
+  POST(wf, WF(TO)) \
+  POST(enclosure, !(GHOST_OK && mem(TO0, GA) && forall_rel(GA, REL, X)) || mem(TO, GA)) \
+  POST(within, !(GHOST_OK && mem(TO, GA)) || mem(TO0, GA))
+#define C_is_empty_POSTS(R, X, Y)            POST(value, ((R) != 0) == is_empty_set(X))
+#define C_contains_POSTS(R, X, Y)            POST(value, ((R) != 0) == set_contains(X, Y))
+#define C_strictly_contains_POSTS(R, X, Y)   POST(value, ((R) != 0) == (set_contains(X, Y) && !set_eq(X, Y)))
+#define C_is_disjoint_from_POSTS(R, X, Y)    POST(value, ((R) != 0) == set_disjoint(X, Y))
+#define C_equal_POSTS(R, X, Y)               POST(value, ((R) != 0) == set_eq(X, Y))
+
 #if defined(VERIF_CBMC)
 _Bool FN_OK(const ITV_T *x);
 #define CONTRACT_ITV1(OP) uint32_t FN_##OP(ITV_T *to, const ITV_T *x) \
@@ -149,6 +235,58 @@ CONTRACT_ITV2(mul)
 #endif
 #ifdef FN_div
 CONTRACT_ITV2(div)
+#endif
+#define CONTRACT_ITV_SELF(OP) uint32_t FN_##OP(ITV_T *to, const ITV_T *x) \
+  PRE(wf_to, WF(to)) PRE(wf_x, WF(x)) ASSIGNS(*to) C_##OP##_POSTS(RET, to, OLD_ITV(to), x);
+#define CONTRACT_ITV_REL(OP) uint32_t FN_##OP(ITV_T *to, uint32_t rel, const ITV_T *x) \
+  PRE(wf_to, WF(to)) PRE(wf_x, WF(x)) PRE(rel, rel_valid(rel)) ASSIGNS(*to) C_##OP##_POSTS(RET, to, OLD_ITV(to), rel, x);
+#define CONTRACT_ITV_PRED1(OP) _Bool FN_##OP(const ITV_T *x) PRE(wf_x, WF(x)) ASSIGNS() C_##OP##_POSTS(RET, x, x);
+#define CONTRACT_ITV_PRED2(OP) _Bool FN_##OP(const ITV_T *x, const ITV_T *y) PRE(wf_x, WF(x)) PRE(wf_y, WF(y)) ASSIGNS() C_##OP##_POSTS(RET, x, y);
+/* entry value of the receiver: a ghost copy made by the harness before the call (G_to0), since
+   __CPROVER_old() of a whole struct is not usable as a pointer argument */
+extern ITV_T G_to0;
+#define OLD_ITV(to) (&G_to0)
+#ifdef FN_assign
+CONTRACT_ITV1(assign)
+#endif
+#ifdef FN_join
+CONTRACT_ITV_SELF(join)
+#endif
+#ifdef FN_join2
+CONTRACT_ITV2(join2)
+#endif
+#ifdef FN_intersect
+CONTRACT_ITV_SELF(intersect)
+#endif
+#ifdef FN_intersect2
+CONTRACT_ITV2(intersect2)
+#endif
+#ifdef FN_difference
+CONTRACT_ITV_SELF(difference)
+#endif
+#ifdef FN_difference2
+CONTRACT_ITV2(difference2)
+#endif
+#ifdef FN_refine_existential
+CONTRACT_ITV_REL(refine_existential)
+#endif
+#ifdef FN_refine_universal
+CONTRACT_ITV_REL(refine_universal)
+#endif
+#ifdef FN_is_empty
+CONTRACT_ITV_PRED1(is_empty)
+#endif
+#ifdef FN_contains
+CONTRACT_ITV_PRED2(contains)
+#endif
+#ifdef FN_strictly_contains
+CONTRACT_ITV_PRED2(strictly_contains)
+#endif
+#ifdef FN_is_disjoint_from
+CONTRACT_ITV_PRED2(is_disjoint_from)
+#endif
+#ifdef FN_equal
+CONTRACT_ITV_PRED2(equal)
 #endif
 #endif
 #endif
